@@ -176,6 +176,32 @@ class Program:
                     self.resolve(m, ast.unparse(b.value)) for b in c.node.bases
                     if isinstance(b, ast.Subscript)]
                 self.classes[c.qualname] = c
+        self._moved = self._moved_functions()
+
+    def _moved_functions(self) -> dict:
+        """A module-level function of the unchanged tree (anchors.json) that now lives in another module of the package
+        and is imported back under its old name keeps its OLD qualified name for the rules: new qualname -> old."""
+        out = {}
+        for old in self.recorded_signatures:
+            mod, _, name = old.rpartition(".")
+            m = self.modules.get(mod)
+            if m is None or name in m.functions or name in m.classes or name not in m.aliases:
+                continue
+            tgt = m.aliases[name]
+            tmod, _, tname = tgt.rpartition(".")
+            for _ in range(4):  # follow re-exports
+                tm = self.modules.get(tmod)
+                if tm is None or tname in tm.functions or tname not in tm.aliases:
+                    break
+                tgt = tm.aliases[tname]
+                tmod, _, tname = tgt.rpartition(".")
+            tm = self.modules.get(tmod)
+            if tm is not None and tname in tm.functions and tgt not in self.recorded_signatures:
+                want = self.recorded_signatures[old]
+                have = _params(tm.functions[tname])
+                if list(want) == list(have):
+                    out[tgt] = old
+        return out
 
     # ------------------------------------------------------- private renames
     def _normalise_private_renames(self) -> dict:
@@ -304,6 +330,12 @@ class Program:
         """Follow re-exports inside the repo (flowjax.bijections.Affine -> ...affine.Affine)."""
         if q in EXTERNAL_ALIASES:
             return EXTERNAL_ALIASES[q]
+        mv = getattr(self, "_moved", None)
+        if mv:
+            if q in mv:
+                return mv[q]
+            if q in mv.values():
+                return q
         if _depth > 8 or not q.startswith(PKG):
             return q
         parts = q.split(".")
@@ -336,6 +368,10 @@ class Program:
         mod, _, name = q.rpartition(".")
         if mod in self.modules and name in self.modules[mod].functions:
             return ("func", self.modules[mod], self.modules[mod].functions[name])
+        for new_q, old_q in (getattr(self, "_moved", None) or {}).items():
+            if old_q == q:
+                nmod, _, nname = new_q.rpartition(".")
+                return ("func", self.modules[nmod], self.modules[nmod].functions[nname])
         return None
 
     # ---------------------------------------------------------------- hierarchy
